@@ -46,7 +46,11 @@ TNext == TReset \/ TBegin \/ TEnd \/ TVerify \/ TInternal
 TSpec == TInit /\ [][TNext]_tvars
 
 \* register 1 = highest trace position reached by any explored state
-Track == IF l > TLCGet(1) THEN TLCSet(1, l) ELSE TRUE
+\* The register holds the highest trace position reached.  Validation asks whether SOME behaviour of the specification
+\* explains the trace: once one has consumed every event nothing else needs exploring (the constraint turns FALSE), which
+\* together with TLC's depth-first state queue makes an accepted trace cost about one path; a rejected one still costs
+\* the whole reachable space of its executions.
+Track == IF TLCGet(1) > Len(Rec) THEN FALSE ELSE (IF l > TLCGet(1) THEN TLCSet(1, l) ELSE TRUE)
 Accepted ==
   IF TLCGet(1) = Len(Rec) + 1 THEN TRUE
   ELSE PrintT(<<"UNMATCHED", TLCGet(1), ToJson(Rec[TLCGet(1)])>>) /\ FALSE
